@@ -323,6 +323,16 @@ Proof.
   - exact I.
 Qed.
 
+Lemma slots_le_map_incl (f : blob -> blob) c :
+  (forall b, incl (b_recs (f b)) (b_recs b)) ->
+  slots_le c (map (fun o => match o with Some b => Some (f b) | None => None end) c).
+Proof.
+  intros Hf. induction c as [|[b|] c IH]; cbn [map]; constructor; try exact IH.
+  - cbn. unfold blob_keys. intros k Hk. apply in_map_iff in Hk. destruct Hk as (r & <- & Hr).
+    apply in_map. apply (Hf b r Hr).
+  - exact I.
+Qed.
+
 Lemma slot_rel_le o o' f : slot_le o o' -> slot_rel o f -> slot_rel o' f.
 Proof.
   destruct o as [b|], o' as [b'|]; cbn; try tauto.
@@ -646,6 +656,12 @@ Proof.
   - apply CSame. cbn [upd_closed s_closed].
     apply (slots_le_map (fun b => if (b_id b =? id)%N then rm_index b else b)).
     intros b. destruct (b_id b =? id)%N; reflexivity.
+  - (* a blob file cut by a crash between two sessions: its key set does not grow (the hierarchy is rebuilt at the
+       next open anyway) *)
+    apply CSame. rewrite closed_do_cut. destruct keep as [j|]; [|apply slots_le_refl].
+    destruct (s_open s); [apply slots_le_refl|]. apply (slots_le_map_incl (cut_blob K id j)).
+    intros b r Hin. unfold cut_blob in Hin. destruct ((b_id b =? id)%N && cut_applies K j b); [|exact Hin].
+    cbn [cut_recs b_recs] in Hin. rewrite <- (firstn_skipn j (b_recs b)). apply in_or_app. left. exact Hin.
 Qed.
 
 Lemma fst_step_q s o : fst (step_q K cfg s o) = quiesce K (fst (step K cfg s o)).
